@@ -15,6 +15,23 @@ CHECKS = {
         "technique": "Coq proof over hand model + kernel-evaluated correspondence (vm_compute) + reflection table lemma",
         "design_ref": "DESIGN.md §6 C01",
     },
+    "C15": {
+        "text": "Proves, for every analyzer output that is a time series (normalisation, Hilbert, wavelet, filters, cross-correlation, "
+                "signal/noise, event-related), that the output is built by a constructor call handing over the sampling rate or interval, "
+                "t0 and time unit, and that such a call yields exactly the input's interval, unit and start; for correlation and "
+                "event-locked results the documented lag/offset with zero lag labelled 0; that in exact arithmetic the rate handed to the "
+                "algorithm layer is 10^12 / interval_ps whatever the unit; that the file reader returns the requested voxels in the order "
+                "requested, ROI by ROI and file by file, with TR as sampling interval, and that concatenation appends data in time for any "
+                "number of runs. The keyword table is read off the running code (G) and descriptors of ~330 (quick) / ~2800 (thorough) "
+                "seeded cases are compared with the model inside Coq (K). Analyzer-versus-algorithm equality is differential validation only.",
+        "note": "Partial. The binary64 rate hand-over is modelled bit-exactly with PrimFloat and compared exactly in K, but its exactness "
+                "(rate_ok) is a hypothesis of the axis theorems, refuted from 2^49 ps on (known finding). Print Assumptions lists only the "
+                "PrimFloat/PrimInt63 primitives. Trusted: numpy fancy indexing and np.concatenate, the nibabel int16 round trip, the Fs "
+                "recorder wrapping get_spectra/periodogram/multi_taper_psd/cache_fft/wmorlet/wlogmorlet/get_freqs/mlab.psd. FilterAnalyzer "
+                "values belong to C18; the .time attribute is compared only below 2^49 ps.",
+        "technique": "Coq proof over Gallina descriptor model (list/Z/Q theorems) + reflected keyword table (G) + kernel-evaluated correspondence (K) + differential oracle",
+        "design_ref": "DESIGN.md §6 C15",
+    },
 }
 
 NOT_YET = {}
